@@ -890,3 +890,65 @@ def option_ordering_eq(ctx, args, st):
     def key(x): return (x.variant, x.items[0].variant if x.variant == 'Some' else None)
     same = key(a) == key(b)
     return ret(st, Bool(same if ctx.callee.endswith('eq') else not same))
+
+
+@model(r'^<&+(?:i8|i16|i32|i64|i128|isize|u8|u16|u32|u64|u128|usize) as (?:PartialOrd|PartialEq)(?:<.*>)?>::(partial_cmp|lt|le|gt|ge|eq|ne)$')
+def int_ref_cmp(ctx, args, st):
+    """comparison operators on references to integers (`a <= b` with a, b: &i64)"""
+    a, b = st.deref_all(args[0]), st.deref_all(args[1])
+    if not (isinstance(a, Int) and isinstance(b, Int)): raise Unsupported(f'integer comparison of {a!r}, {b!r}')
+    op = re.search(r'::(\w+)$', ctx.callee).group(1)
+    lt = (a.e < b.e) if a.signed else z3.ULT(a.e, b.e)
+    eq = a.e == b.e
+    if op == 'partial_cmp':
+        def g():
+            for s1, isl in ctx.ex.fork_bool(st, lt):
+                if isl:
+                    yield s1, 'ret', Some(Adt('Ordering', 'Less', [])); continue
+                for s2, ise in ctx.ex.fork_bool(s1, eq):
+                    yield s2, 'ret', Some(Adt('Ordering', 'Equal' if ise else 'Greater', []))
+        return g()
+    e = {'lt': lt, 'le': z3.Or(lt, eq), 'gt': z3.Not(z3.Or(lt, eq)), 'ge': z3.Not(lt), 'eq': eq, 'ne': z3.Not(eq)}[op]
+    return ret(st, Bool(z3.simplify(e)))
+
+
+@model(r'^(?:std::option::|core::option::)?Option::<.*>::(is_some_and|is_none_or)::<')
+def option_is_some_and(ctx, args, st):
+    o = args[0]
+    if isinstance(o, Ref): o = st.deref_all(o)
+    if not (isinstance(o, Adt) and o.ty == 'Option'): raise Unsupported(f'Option predicate on {o!r}')
+    some_and = 'is_some_and' in ctx.callee
+    if o.variant == 'None': return ret(st, Bool(not some_and))
+    return ctx.ex.call_value(args[1], [o.items[0]], st, ctx.depth + 1)
+
+
+@model(r'^(?:std::result::|core::result::)?Result::<.*>::(is_ok_and|is_err_and)::<')
+def result_is_ok_and(ctx, args, st):
+    o = args[0]
+    if isinstance(o, Ref): o = st.deref_all(o)
+    if not (isinstance(o, Adt) and o.ty == 'Result'): raise Unsupported(f'Result predicate on {o!r}')
+    want = 'Ok' if 'is_ok_and' in ctx.callee else 'Err'
+    if o.variant != want: return ret(st, Bool(False))
+    return ctx.ex.call_value(args[1], [o.items[0]], st, ctx.depth + 1)
+
+
+@model(r'^(?:std::result::|core::result::)?Result::<.*>::(and|or)::<')
+def result_and_or(ctx, args, st):
+    """Result::and / Result::or: both operands are already evaluated (eager), the combinator only selects"""
+    a, b = args[0], args[1]
+    if not (isinstance(a, Adt) and a.ty == 'Result'): raise Unsupported(f'Result::and/or on {a!r}')
+    is_and = re.search(r'::(and|or)::<', ctx.callee).group(1) == 'and'
+    if is_and: return ret(st, b if a.variant == 'Ok' else a)
+    return ret(st, a if a.variant == 'Ok' else b)
+
+
+@model(r'^<(i8|i16|i32|i64|i128|isize|u8|u16|u32|u64|u128|usize) as (?:From|Into)<(i8|i16|i32|i64|i128|isize|u8|u16|u32|u64|u128|usize|bool)>>::(from|into)$')
+def int_from_int(ctx, args, st):
+    """lossless integer conversions (From/Into between integer types; bool -> integer)"""
+    m = re.match(r'^<(\w+) as (From|Into)<(\w+)>>::', ctx.callee)
+    dst = m.group(1) if m.group(2) == 'From' else m.group(3)
+    v = args[0]
+    while isinstance(v, Ref): v = st.deref(v)
+    if isinstance(v, Bool): v = Int(z3.If(v.e, z3.BitVecVal(1, 8), z3.BitVecVal(0, 8)), 'u8')
+    if not isinstance(v, Int): raise Unsupported(f'integer conversion of {v!r}')
+    return ret(st, ctx.ex.cast(v, dst, 'IntToInt', st))
